@@ -168,7 +168,11 @@ func checkC09(c *run.Ctx) {
 			var ierr error
 			if pi := run.Guard(func() {
 				ierr = p.Interpolate(refmodel.NewEnv(false, map[string]string{"X": "xv", "Y": "y y", "a": "1"}), false)
-			}); pi == nil && ierr == nil {
+			}); pi == nil && ierr == nil && c09HasFalsySkip(p) {
+				// known finding K1 reached through interpolation: a skip string that expands to nothing is dropped by
+				// the JSON form and kept by the YAML form; the class is excluded here as it is in the generator
+				c.Count("second_round_trips_skipped_falsy_skip_after_interpolation_K1", 1)
+			} else if pi == nil && ierr == nil {
 				c.Count("second_round_trips_after_interpolation", 1)
 				if !legs("after interpolating the pipeline that was marshalled before: ", nil) {
 					return
@@ -345,6 +349,37 @@ func c09Witnesses(c *run.Ctx) {
 		fails, what := c09Roundtrip(w.Document, w.Leg)
 		c.Witness(f, fails, fmt.Sprintf("%s leg of %q: %s", w.Leg, w.Document, what))
 	}
+}
+
+// c09HasFalsySkip reports whether some matrix adjustment carries a skip value that is present but falsy ("", false,
+// 0): the input class of known finding K1.
+func c09HasFalsySkip(p *pipeline.Pipeline) bool {
+	found := false
+	allCommandSteps(p.Steps, func(_ string, s *pipeline.CommandStep) {
+		if s.Matrix == nil {
+			return
+		}
+		for _, a := range s.Matrix.Adjustments {
+			if a == nil {
+				continue
+			}
+			switch v := a.Skip.(type) {
+			case string:
+				found = found || v == ""
+			case bool:
+				found = found || !v
+			case int:
+				found = found || v == 0
+			case int64:
+				found = found || v == 0
+			case uint64:
+				found = found || v == 0
+			case float64:
+				found = found || v == 0
+			}
+		}
+	})
+	return found
 }
 
 // c09Roundtrip reports whether parse -> marshal(leg) -> parse is not a fixpoint.
